@@ -1614,6 +1614,7 @@ SPEC_MUTANTS = [
     ("MC_Conserve.tla", "MC_Conserve_mutant_gcskip.cfg", "Inv_"),
     ("MC_Conserve.tla", "MC_Conserve_mutant_blocksfirst.cfg", "Inv_"),
     ("MC_Conserve.tla", "MC_Conserve_mutant_conc_norecheck.cfg", "Inv_"),
+    ("MC_Conserve.tla", "MC_Conserve_mutant_conc_headless.cfg", "Inv_"),
     ("MC_Conserve.tla", "MC_Conserve_mutant_silenthunks.cfg", "Inv_ValidateAdequate"),
     ("Restore.tla", "Restore_mutant_modefirst.cfg", "Inv_MetadataExact"),
     ("Restore.tla", "Restore_mutant_chownfollows.cfg", "Inv_OutsideUntouched"),
